@@ -975,6 +975,23 @@ struct ObsHarness
                    what << ": " << set_name(kv.first) << " delivered " << show(kv.second) << ", "
                         << (in.kind == kGaugeK ? "most recently observed value " : "last reported total ")
                         << show(in.last[kv.first]) << (cur[i].count(kv.first) ? "" : " (set not in the current observation)"));
+        // "independent of other readers' collections": a value that was observed during ANOTHER
+        // reader's collection since this reader's previous one is still owed to this reader, also when
+        // the set is not part of the current observation (it may only be omitted when this reader has
+        // already been given exactly that value)
+        auto &given_c = in.given[static_cast<size_t>(r)];
+        if (in.alive)
+          for (auto &kv : in.last)
+          {
+            if (cur[i].count(kv.first) || pts.count(kv.first))
+              continue;
+            bool already = given_c.count(kv.first) && eq(given_c[kv.first], kv.second);
+            VH_CHECK(c, already, what << ": " << set_name(kv.first) << " has the value " << show(kv.second)
+                                      << " (observed during another reader's collection) which this reader was "
+                                      << "never given, and no point was delivered now");
+          }
+        for (auto &kv : pts)
+          given_c[kv.first] = kv.second;
       }
       else
       {
@@ -991,6 +1008,19 @@ struct ObsHarness
           else if (!pts.count(kv.first))
             c.tag("delta-zero-omitted");
         }
+        // the same for sets outside the current observation: a difference observed during another
+        // reader's collection is still owed to this reader
+        if (in.alive)
+          for (auto &kv : in.last)
+          {
+            if (cur[i].count(kv.first) || pts.count(kv.first))
+              continue;
+            Val g   = given.count(kv.first) ? given[kv.first] : zero_of(in.dbl);
+            Val exp = sub(kv.second, g);
+            VH_CHECK(c, is_zero(exp), what << ": " << set_name(kv.first) << " total " << show(kv.second)
+                                           << " (observed during another reader's collection), this reader was given "
+                                           << show(g) << " so far, but no point was delivered");
+          }
         for (auto &kv : pts)
         {
           Val g   = given.count(kv.first) ? given[kv.first] : zero_of(in.dbl);
